@@ -663,9 +663,11 @@ def check_values(R, pool, files, mods, note, param):
                     for casing in (betterproto.Casing.CAMEL, betterproto.Casing.SNAKE):
                         b3 = cls().from_dict(m.to_dict(casing=casing))
                         if Ref.FromString(bytes(b3)) != ref:
-                            note("C04/C19 dict round trip on generated class differs", f"[{param}] {full} {casing.name}: {json.dumps(m.to_dict(casing=casing))[:200]}")
+                            note("C04/C19 dict round trip on generated class differs", f"[{param}] {full} {getattr(casing, "__name__", casing)}: {json.dumps(m.to_dict(casing=casing))[:200]} data={data.hex()}")
                 except Exception as ex:
-                    note("C05 JSON of generated class fails", f"[{param}] {full}: {type(ex).__name__}: {str(ex)[:100]}")
+                    tb = traceback.extract_tb(ex.__traceback__)
+                    where = "; ".join(f"{os.path.basename(t.filename)}:{t.lineno}" for t in tb[-3:])
+                    note("C05 JSON of generated class fails", f"[{param}] {full}: {type(ex).__name__}: {str(ex)[:100]} @ {where} data={data.hex()[:60]}")
 
 
 def signature(files, mods):
